@@ -8,6 +8,9 @@
           to be read, by a reconciliation answer on its way, or by a KILL sent SINCE the latest RECONCILE call
           of the current life (so: every reconciliation round kills it again, `orphansKilledEachRound`)
     InvP  (under `noReconnWhileOwning`) no reconciliation update in flight names a locked roster task
+    InvR  the roster and what the environments hold: every held task has a locked roster entry of its
+          environment and vice versa — across teardowns split into `releaseBegin`/`releaseEnd` with deployments
+          of other environments in between; needs `snapshotRewrite = false` (failed KILLs are appended back)
 -/
 import ControlModel.Spec.C18
 open Reconcile Spec.C18
@@ -66,6 +69,7 @@ structure Sound (c : Cfg) : Prop where
   recon : c.reconcileOnSubscribed = true
   staging : c.killable .staging = true
   nonterm : ∀ st, c.killable st = true → st.terminal = false
+  norewrite : c.snapshotRewrite = false
 
 def stepOk (c : Cfg) : Step → Bool
   | .status _ st => st.terminal || c.killable st
@@ -74,6 +78,7 @@ def stepOk (c : Cfg) : Step → Bool
 structure InvB (c : Cfg) (s : St) : Prop where
   seen : ∀ t ∈ s.tasks, t.id ∈ s.seen
   roster : ∀ r ∈ s.roster, ∀ t ∈ s.tasks, t.id = r.id → t.life = s.life
+  tearing : ∀ d ∈ s.tearing, ∀ a ∈ d.act, ∀ t ∈ s.tasks, t.id = a → t.life = s.life
   fid : ∀ t ∈ s.tasks, s.kv = some t.fid
   mem : s.alive = true → s.fidMem = s.kv
   dead : s.alive = false → s.stream = none ∧ s.hello = none ∧ s.queue = [] ∧ s.roster = [] ∧ s.inbox = []
@@ -83,14 +88,84 @@ structure InvB (c : Cfg) (s : St) : Prop where
 theorem invB_init (c : Cfg) (kv0 : Option Nat) : InvB c (init kv0) := by
   cases kv0 <;> constructor <;> simp [init]
 
+theorem mem_tearing_find (ds : List Teardown) (e : Nat) (d : Teardown)
+    (h : ds.find? (fun d => d.env == e) = some d) : d ∈ ds := List.mem_of_find?_eq_some h
+
+theorem mem_tearing_erase (ds : List Teardown) (e : Nat) (d : Teardown)
+    (h : d ∈ ds.eraseP (fun d => d.env == e)) : d ∈ ds := List.mem_of_mem_eraseP h
+
 theorem invB_step (c : Cfg) (W : World) (hc : Sound c) (s : St) (x : Step) (hx : stepOk c x = true)
     (ha : ∀ g, s.hello = some g → s.stream = some g)
     (h : InvB c s) : InvB c (step c W s x) := by
-  obtain ⟨hs1, hs2, hs3, hs4, hs5, hs6⟩ := hc
-  obtain ⟨h1, h3, h4, h5, h6, h7, h8⟩ := h
+  obtain ⟨hs1, hs2, hs3, hs4, hs5, hs6, hs7⟩ := hc
+  obtain ⟨h1, h3, ht, h4, h5, h6, h7, h8⟩ := h
   constructor
   · cases x <;> grind [step, St.exit]
-  · cases x <;> grind [step, St.exit, setActive]
+  · cases x with
+    | releaseEnd e =>
+      by_cases hal : s.alive = true
+      case neg => simpa [step, hal] using h3
+      cases hf : s.tearing.find? (fun d => d.env == e) with
+      | none => simpa [step, hal, hf] using h3
+      | some d =>
+        have hd := mem_tearing_find _ _ _ hf
+        intro r hr t htm hid
+        by_cases hs : s.stream.isSome = true
+        · simp [step, hal, hf, hs, hs7] at hr htm ⊢
+          exact h3 r hr t htm hid
+        · simp [step, hal, hf, hs, hs7] at hr htm ⊢
+          rcases hr with hr | ⟨a, ha', rfl⟩
+          · exact h3 r hr t htm hid
+          · exact ht d hd a ha' t htm (by simpa [putBack] using hid)
+    | releaseBegin e => grind [step, St.exit]
+    | release e => grind [step, St.exit]
+    | coreStart => grind [step, St.exit]
+    | coreKill => grind [step, St.exit]
+    | coreTerm => grind [step, St.exit]
+    | subscribe => grind [step, St.exit]
+    | drop => grind [step, St.exit]
+    | read => grind [step, St.exit]
+    | handle => grind [step, St.exit, setActive]
+    | launch e t => grind [step, St.exit]
+    | status t st => grind [step, St.exit]
+    | reconUpdate t st => grind [step, St.exit]
+    | snapshot => grind [step, St.exit]
+  · cases x with
+    | releaseEnd e =>
+      by_cases hal : s.alive = true
+      case neg => simpa [step, hal] using ht
+      cases hf : s.tearing.find? (fun d => d.env == e) with
+      | none => simpa [step, hal, hf] using ht
+      | some d =>
+        intro d' hd' a ha' t htm hid
+        by_cases hs : s.stream.isSome = true
+        · simp [step, hal, hf, hs] at hd' htm ⊢
+          exact ht d' (mem_tearing_erase _ _ _ hd') a ha' t htm hid
+        · simp [step, hal, hf, hs] at hd' htm ⊢
+          exact ht d' (mem_tearing_erase _ _ _ hd') a ha' t htm hid
+    | releaseBegin e =>
+      by_cases hal : s.alive = true
+      case neg => simpa [step, hal] using ht
+      intro d' hd' a ha' t htm hid
+      simp [step, hal] at hd' htm ⊢
+      rcases hd' with hd' | rfl
+      · exact ht d' hd' a ha' t htm hid
+      · dsimp only at ha'
+        simp only [List.mem_map, List.mem_filter] at ha'
+        obtain ⟨r, ⟨hr, _⟩, rfl⟩ := ha'
+        exact h3 r hr t htm hid
+    | release e => grind [step, St.exit]
+    | coreStart => grind [step, St.exit]
+    | coreKill => grind [step, St.exit]
+    | coreTerm => grind [step, St.exit]
+    | subscribe => grind [step, St.exit]
+    | drop => grind [step, St.exit]
+    | read => grind [step, St.exit]
+    | handle => grind [step, St.exit]
+    | launch e t => grind [step, St.exit]
+    | status t st => grind [step, St.exit]
+    | reconUpdate t st => grind [step, St.exit]
+    | snapshot => grind [step, St.exit]
   · cases x <;> grind [step, St.exit]
   · cases x <;> grind [step, St.exit]
   · cases x <;> grind [step, St.exit]
@@ -209,9 +284,9 @@ theorem invQ_orphan_read (c : Cfg) (W : World) (hc : Sound c) (hW : ∀ n t, W.a
     let s' := step c W s .read
     s'.alive = true → s'.stream.isSome = true → ∀ t ∈ s'.tasks, t.life < s'.life → c.killable t.state = true →
     s'.hello.isSome = true ∨ Pending c s' t.id ∨ Killed s'.log s'.life t.id := by
-  obtain ⟨hs1, hs2, hs3, hs4, hs5, hs6⟩ := hc
+  obtain ⟨hs1, hs2, hs3, hs4, hs5, hs6, hs7⟩ := hc
   obtain ⟨a1, a2, a3, a4, a5, a6⟩ := hA
-  obtain ⟨b1, b3, b4, b5, b6, b7, b8⟩ := hB
+  obtain ⟨b1, b3, bt, b4, b5, b6, b7, b8⟩ := hB
   obtain ⟨q1, q2⟩ := h
   intro s'
   by_cases hal : s.alive = true
@@ -297,7 +372,7 @@ theorem invQ_orphan_handle (c : Cfg) (W : World)
         injection h2 with e1 e2; injection e2 with e2 e3
         subst e1 e2 e3
         have hnr := not_inRoster_of_old c s hB t ht hlt
-        refine ⟨lockedIn s.roster t.id, ?_⟩
+        refine ⟨lockedIn s.roster t.id || heldBy s.held t.id, ?_⟩
         simp [s', step, hal, hi, hst, hnr, hs']
       · exact Or.inr (Or.inl ⟨st, hst, Or.inr (hinbox ▸ h2)⟩)
     · exact Or.inr (Or.inr (h3.mono hlog))
@@ -349,6 +424,21 @@ theorem invQ_orphan_step (c : Cfg) (W : World) (hc : Sound c) (hW : ∀ n t, W.a
       · apply orphan_frame c s s' h <;> simp [s', step, hs, hal, sinceReconcile_killsFor] <;> grind
       · apply orphan_frame c s s' h <;> simp [s', step, hs, hal]
     · simpa [s', step, hal] using h.orphan
+  | releaseBegin e =>
+    intro s'
+    by_cases hal : s.alive = true
+    · apply orphan_frame c s s' h <;> simp [s', step, hal]
+    · simpa [s', step, hal] using h.orphan
+  | releaseEnd e =>
+    intro s'
+    by_cases hal : s.alive = true
+    · cases hf : s.tearing.find? (fun d => d.env == e) with
+      | none => simpa [s', step, hal, hf] using h.orphan
+      | some d =>
+        by_cases hs : s.stream.isSome = true
+        · apply orphan_frame c s s' h <;> simp [s', step, hs, hal, hf, sinceReconcile_killsFor] <;> grind
+        · apply orphan_frame c s s' h <;> simp [s', step, hs, hal, hf]
+    · simpa [s', step, hal] using h.orphan
   | launch e t' =>
     intro s'
     cases hst : s.stream with
@@ -358,7 +448,7 @@ theorem invQ_orphan_step (c : Cfg) (W : World) (hc : Sound c) (hW : ∀ n t, W.a
       · have heq : s' = s := by simp only [s', step, hst, hen]; rfl
         rw [heq]; exact h.orphan
       · intro ha' hs' t ht hlt hk
-        have heq : s' = { s with roster := s.roster ++ [{ id := t', env := e, locked := true, active := false }], tasks := s.tasks ++ [{ id := t', fid := f, life := s.life, env := e, state := .staging }], seen := t' :: s.seen } := by simp only [s', step, hst, hen]; rfl
+        have heq : s' = { s with roster := s.roster ++ [{ id := t', env := e, locked := true, active := false }], held := s.held ++ [(t', e)], tasks := s.tasks ++ [{ id := t', fid := f, life := s.life, env := e, state := .staging }], seen := t' :: s.seen } := by simp only [s', step, hst, hen]; rfl
         rw [heq] at ht hlt ha' hs' ⊢
         simp only [] at ht hlt ha' hs' ⊢
         rcases List.mem_append.mp ht with ht | ht
@@ -424,6 +514,16 @@ theorem invQ_spec_step (c : Cfg) (W : World) (s : St) (x : Step) (h : InvQ c s) 
   | status t st => grind [step, St.exit]
   | reconUpdate t st => grind [step, St.exit]
   | release e => grind [step, St.exit, eachRound_killsFor]
+  | releaseBegin e => grind [step, St.exit]
+  | releaseEnd e =>
+    by_cases hal : s.alive = true
+    · cases hf : s.tearing.find? (fun d => d.env == e) with
+      | none => simpa [step, hal, hf] using q2
+      | some d =>
+        by_cases hs : s.stream.isSome = true
+        · simpa [step, hal, hf, hs] using eachRound_killsFor _ _ _ _ q2
+        · simpa [step, hal, hf, hs] using q2
+    · simpa [step, hal] using q2
 
 theorem invQ_step (c : Cfg) (W : World) (hc : Sound c) (hW : ∀ n t, W.answers n t = true)
     (s : St) (x : Step) (hx : stepOk c x = true)
@@ -497,6 +597,172 @@ theorem ownedSpared_killsFor_release (l ts) (log : List Out) (h : ownedSpared lo
   | nil => simpa [killsFor] using h
   | cons a as ih => simpa [killsFor, ownedSpared] using ih
 
+/-! ### the roster and what the environments hold -/
+
+theorem lockedIn_putBack (r : List RTask) (e : Nat) (l : List Nat) (t : Nat) :
+    lockedIn (r ++ l.map (putBack e)) t = lockedIn r t := by
+  simp [lockedIn, List.any_append, putBack]
+
+theorem anyLocked_putBack (r : List RTask) (e : Nat) (l : List Nat) :
+    (r ++ l.map (putBack e)).any (·.locked) = r.any (·.locked) := by
+  simp [List.any_append, putBack]
+
+/-- Every task a live environment holds has a locked roster entry of that environment, and every locked roster
+    entry is held: the roster is COMPLETE (nothing owned is missing: what the roster test of the KILL branch
+    relies on) and SOUND. -/
+structure InvR (s : St) : Prop where
+  complete : ∀ p ∈ s.held, ∃ r ∈ s.roster, r.id = p.1 ∧ r.env = p.2 ∧ r.locked = true
+  sound : ∀ r ∈ s.roster, r.locked = true → (r.id, r.env) ∈ s.held
+
+theorem invR_init (kv0 : Option Nat) : InvR (init kv0) := by
+  cases kv0 <;> constructor <;> simp [init]
+
+theorem setActive_fields (rs : List RTask) (t : Nat) (st : MState) (r : RTask) (h : r ∈ setActive rs t st) :
+    ∃ r0 ∈ rs, r.id = r0.id ∧ r.env = r0.env ∧ r.locked = r0.locked := by
+  simp only [setActive, List.mem_map] at h
+  obtain ⟨r0, h0, rfl⟩ := h
+  refine ⟨r0, h0, ?_⟩
+  split <;> (try split) <;> (try split) <;> simp
+
+theorem setActive_fields' (rs : List RTask) (t : Nat) (st : MState) (r0 : RTask) (h : r0 ∈ rs) :
+    ∃ r ∈ setActive rs t st, r.id = r0.id ∧ r.env = r0.env ∧ r.locked = r0.locked := by
+  refine ⟨_, List.mem_map.mpr ⟨r0, h, rfl⟩, ?_⟩
+  split <;> (try split) <;> (try split) <;> simp
+
+theorem invR_step (c : Cfg) (W : World) (hrw : c.snapshotRewrite = false) (s : St) (x : Step) (h : InvR s) :
+    InvR (step c W s x) := by
+  obtain ⟨r1, r2⟩ := h
+  cases x with
+  | coreStart => constructor <;> grind [step, St.exit]
+  | coreKill => constructor <;> grind [step, St.exit]
+  | coreTerm => constructor <;> grind [step, St.exit]
+  | subscribe => constructor <;> grind [step, St.exit]
+  | drop => constructor <;> grind [step, St.exit]
+  | read => constructor <;> grind [step, St.exit]
+  | status t st => constructor <;> grind [step, St.exit]
+  | reconUpdate t st => constructor <;> grind [step, St.exit]
+  | snapshot => constructor <;> grind [step, St.exit]
+  | handle =>
+    by_cases hal : s.alive = true
+    case neg => simpa [step, hal] using InvR.mk r1 r2
+    cases hi : s.inbox with
+    | nil => simpa [step, hal, hi] using InvR.mk r1 r2
+    | cons u rest =>
+      obtain ⟨t', st', r'⟩ := u
+      by_cases hk : ((!c.reasonGuard || r' == .recon) && c.killable st' && (!c.rosterGuard || !inRoster s.roster t')) = true
+      · exact ⟨by simpa [step, hal, hi, hk] using r1, by simpa [step, hal, hi, hk] using r2⟩
+      · constructor
+        · intro p hp
+          have hp' : p ∈ s.held := by simpa [step, hal, hi, hk] using hp
+          obtain ⟨r, hr, h1, h2, h3⟩ := r1 p hp'
+          obtain ⟨r', hr', g1, g2, g3⟩ := setActive_fields' s.roster t' st' r hr
+          refine ⟨r', by simpa [step, hal, hi, hk] using hr', ?_⟩
+          rw [g1, g2, g3]; exact ⟨h1, h2, h3⟩
+        · intro r hr hl
+          have hr' : r ∈ setActive s.roster t' st' := by simpa [step, hal, hi, hk] using hr
+          obtain ⟨r0, hr0, g1, g2, g3⟩ := setActive_fields s.roster t' st' r hr'
+          have := r2 r0 hr0 (g3 ▸ hl)
+          simpa [step, hal, hi, hk, g1, g2] using this
+  | launch e t' =>
+    cases hst : s.stream with
+    | none => simpa [step, hst] using InvR.mk r1 r2
+    | some f =>
+      by_cases hen : (!s.alive || s.hello.isSome || s.seen.contains t') = true
+      · have heq : step c W s (.launch e t') = s := by simp only [step, hst, hen]; rfl
+        rw [heq]; exact ⟨r1, r2⟩
+      · have heq : step c W s (.launch e t') = { s with roster := s.roster ++ [{ id := t', env := e, locked := true, active := false }], held := s.held ++ [(t', e)], tasks := s.tasks ++ [{ id := t', fid := f, life := s.life, env := e, state := .staging }], seen := t' :: s.seen } := by simp only [step, hst, hen]; rfl
+        rw [heq]
+        constructor
+        · intro p hp
+          simp only [List.mem_append, List.mem_singleton] at hp
+          rcases hp with hp | rfl
+          · obtain ⟨r, hr, h⟩ := r1 p hp
+            exact ⟨r, List.mem_append.mpr (Or.inl hr), h⟩
+          · exact ⟨_, List.mem_append.mpr (Or.inr (List.mem_singleton.mpr rfl)), rfl, rfl, rfl⟩
+        · intro r hr hl
+          simp only [List.mem_append, List.mem_singleton] at hr ⊢
+          rcases hr with hr | rfl
+          · exact Or.inl (r2 r hr hl)
+          · exact Or.inr rfl
+  | release e =>
+    by_cases hal : s.alive = true
+    case neg => simpa [step, hal] using InvR.mk r1 r2
+    have hc : ∀ p ∈ s.held.filter (fun p => p.2 != e), ∃ r ∈ s.roster.filter (fun x => x.env != e),
+        r.id = p.1 ∧ r.env = p.2 ∧ r.locked = true := by
+      intro p hp
+      simp only [List.mem_filter] at hp
+      obtain ⟨r, hr, h1, h2, h3⟩ := r1 p hp.1
+      exact ⟨r, List.mem_filter.mpr ⟨hr, by rw [h2]; exact hp.2⟩, h1, h2, h3⟩
+    have hs' : ∀ r ∈ s.roster.filter (fun x => x.env != e), r.locked = true →
+        (r.id, r.env) ∈ s.held.filter (fun p => p.2 != e) := by
+      intro r hr hl
+      simp only [List.mem_filter] at hr
+      exact List.mem_filter.mpr ⟨r2 r hr.1 hl, hr.2⟩
+    by_cases hs : s.stream.isSome = true
+    · exact ⟨by simpa [step, hal, hs] using hc, by simpa [step, hal, hs] using hs'⟩
+    · constructor
+      · intro p hp
+        have hp' : p ∈ s.held.filter (fun p => p.2 != e) := by simpa [step, hal, hs] using hp
+        obtain ⟨r, hr, h⟩ := hc p hp'
+        exact ⟨r, by simp only [step, hal, hs]; exact List.mem_append.mpr (Or.inl hr), h⟩
+      · intro r hr hl
+        simp only [step, hal, hs] at hr ⊢
+        rcases List.mem_append.mp hr with hr | hr
+        · exact hs' r hr hl
+        · simp only [List.mem_map] at hr
+          obtain ⟨r0, _, rfl⟩ := hr
+          simp at hl
+  | releaseBegin e =>
+    by_cases hal : s.alive = true
+    case neg => simpa [step, hal] using InvR.mk r1 r2
+    constructor
+    · intro p hp
+      have hp' : p ∈ s.held.filter (fun p => p.2 != e) := by simpa [step, hal] using hp
+      simp only [List.mem_filter] at hp'
+      obtain ⟨r, hr, h1, h2, h3⟩ := r1 p hp'.1
+      refine ⟨r, ?_, h1, h2, h3⟩
+      simp only [step, hal]
+      exact List.mem_filter.mpr ⟨hr, by rw [h2]; exact hp'.2⟩
+    · intro r hr hl
+      simp only [step, hal] at hr ⊢
+      simp only [Bool.not_true, Bool.false_eq_true, if_false, List.mem_filter] at hr ⊢
+      exact ⟨r2 r hr.1 hl, hr.2⟩
+  | releaseEnd e =>
+    by_cases hal : s.alive = true
+    case neg => simpa [step, hal] using InvR.mk r1 r2
+    cases hf : s.tearing.find? (fun d => d.env == e) with
+    | none => simpa [step, hal, hf] using InvR.mk r1 r2
+    | some d =>
+      by_cases hs : s.stream.isSome = true
+      · exact ⟨by simpa [step, hal, hf, hs, hrw] using r1, by simpa [step, hal, hf, hs, hrw] using r2⟩
+      · constructor
+        · intro p hp
+          have hp' : p ∈ s.held := by simpa [step, hal, hf, hs] using hp
+          obtain ⟨r, hr, h⟩ := r1 p hp'
+          exact ⟨r, by simp only [step, hal, hf, hs, hrw]; exact List.mem_append.mpr (Or.inl hr), h⟩
+        · intro r hr hl
+          simp [step, hal, hf, hs, hrw] at hr ⊢
+          rcases hr with hr | ⟨a, _, rfl⟩
+          · exact r2 r hr hl
+          · simp [putBack] at hl
+
+theorem invR_run (c : Cfg) (W : World) (hrw : c.snapshotRewrite = false) (h : List Step) (s : St) (hs : InvR s) :
+    InvR (run c W h s) := by
+  induction h generalizing s with
+  | nil => exact hs
+  | cons x xs ih => exact ih _ (invR_step c W hrw s x hs)
+
+/-- In a state satisfying InvR, "held by a live environment" and "locked in the roster" are the same thing. -/
+theorem heldBy_eq_lockedIn (s : St) (h : InvR s) (t : Nat) : heldBy s.held t = lockedIn s.roster t := by
+  apply Bool.eq_iff_iff.mpr
+  simp only [heldBy, lockedIn, List.any_eq_true, beq_iff_eq, Bool.and_eq_true]
+  constructor
+  · rintro ⟨p, hp, rfl⟩
+    obtain ⟨r, hr, h1, _, h3⟩ := h.complete p hp
+    exact ⟨r, hr, h1, h3⟩
+  · rintro ⟨r, hr, rfl, hl⟩
+    exact ⟨_, h.sound r hr hl, rfl⟩
+
 structure InvP (s : St) : Prop where
   flight : ∀ t st, ((t, st, Reason.recon) ∈ s.queue ∨ (t, st, Reason.recon) ∈ s.inbox) → lockedIn s.roster t = false ∧ t ∈ s.seen
   hello : s.hello.isSome = true → s.roster.any (·.locked) = false
@@ -534,7 +800,7 @@ theorem lockedIn_unlocked (r : List RTask) (t : Nat) :
   | nil => rfl
   | cons a as ih => simpa [lockedIn] using ih
 
-theorem invP_flight_step (c : Cfg) (W : World) (s : St) (x : Step) (hx : reconnOk s x = true)
+theorem invP_flight_step (c : Cfg) (W : World) (hrw : c.snapshotRewrite = false) (s : St) (x : Step) (hx : reconnOk s x = true)
     (hb : ∀ t ∈ s.tasks, t.id ∈ s.seen) (h : InvP s) :
     ∀ t st, ((t, st, Reason.recon) ∈ (step c W s x).queue ∨ (t, st, Reason.recon) ∈ (step c W s x).inbox) →
       lockedIn (step c W s x).roster t = false ∧ t ∈ (step c W s x).seen := by
@@ -603,7 +869,7 @@ theorem invP_flight_step (c : Cfg) (W : World) (s : St) (x : Step) (hx : reconnO
       · have heq : step c W s (.launch e t') = s := by simp only [step, hst, hen]; rfl
         rw [heq]; exact p1
       · intro t st hm
-        have heq : step c W s (.launch e t') = { s with roster := s.roster ++ [{ id := t', env := e, locked := true, active := false }], tasks := s.tasks ++ [{ id := t', fid := f, life := s.life, env := e, state := .staging }], seen := t' :: s.seen } := by simp only [step, hst, hen]; rfl
+        have heq : step c W s (.launch e t') = { s with roster := s.roster ++ [{ id := t', env := e, locked := true, active := false }], held := s.held ++ [(t', e)], tasks := s.tasks ++ [{ id := t', fid := f, life := s.life, env := e, state := .staging }], seen := t' :: s.seen } := by simp only [step, hst, hen]; rfl
         rw [heq] at hm ⊢
         simp only [] at hm ⊢
         have := p1 t st hm
@@ -626,6 +892,27 @@ theorem invP_flight_step (c : Cfg) (W : World) (s : St) (x : Step) (hx : reconnO
       refine ⟨?_, this.2⟩
       simp only [lockedIn, List.any_append, Bool.or_eq_false_iff]
       exact ⟨lockedIn_filter _ _ _ this.1, lockedIn_unlocked _ _⟩
+  | releaseBegin e =>
+    by_cases hal : s.alive = true
+    case neg => simpa [step, hal] using p1
+    intro t st hm
+    simp [step, hal] at hm ⊢
+    have := p1 t st hm
+    exact ⟨lockedIn_filter _ _ _ this.1, this.2⟩
+  | releaseEnd e =>
+    by_cases hal : s.alive = true
+    case neg => simpa [step, hal] using p1
+    cases hf : s.tearing.find? (fun d => d.env == e) with
+    | none => simpa [step, hal, hf] using p1
+    | some d =>
+      intro t st hm
+      by_cases hs : s.stream.isSome = true
+      · simp [step, hal, hf, hs, hrw] at hm ⊢
+        exact p1 t st hm
+      · simp only [step, hal, hf, hs, hrw] at hm ⊢
+        simp only [Bool.not_true, Bool.false_eq_true, if_false] at hm ⊢
+        rw [lockedIn_putBack]
+        exact p1 t st hm
   | coreStart => grind [step, St.exit, reconnOk, lockedIn_nil]
   | coreKill => grind [step, St.exit, reconnOk, lockedIn_nil]
   | coreTerm => grind [step, St.exit, reconnOk, lockedIn_nil]
@@ -646,7 +933,7 @@ theorem anyLocked_filter (r : List RTask) (p : RTask → Bool) (h : r.any (·.lo
     · simp only [List.any_cons, h.1, Bool.false_or]; exact ih h.2
     · exact ih h.2
 
-theorem invP_hello_step (c : Cfg) (W : World) (s : St) (x : Step) (hx : reconnOk s x = true)
+theorem invP_hello_step (c : Cfg) (W : World) (hrw : c.snapshotRewrite = false) (s : St) (x : Step) (hx : reconnOk s x = true)
     (ha : ∀ g, s.hello = some g → s.stream = some g) (h : InvP s) :
     (step c W s x).hello.isSome = true → (step c W s x).roster.any (·.locked) = false := by
   obtain ⟨p1, p2, p3⟩ := h
@@ -671,6 +958,23 @@ theorem invP_hello_step (c : Cfg) (W : World) (s : St) (x : Step) (hx : reconnOk
       cases hhe : s.hello with
       | none => simp [hhe] at hh
       | some g => have := ha g hhe; simp [this] at hs
+  | releaseBegin e =>
+    by_cases hal : s.alive = true
+    case neg => simpa [step, hal] using p2
+    simp only [step, hal]; intro hh; exact anyLocked_filter _ _ (p2 (by simpa using hh))
+  | releaseEnd e =>
+    by_cases hal : s.alive = true
+    case neg => simpa [step, hal] using p2
+    cases hf : s.tearing.find? (fun d => d.env == e) with
+    | none => simpa [step, hal, hf] using p2
+    | some d =>
+      by_cases hs : s.stream.isSome = true
+      · simpa [step, hal, hf, hs, hrw] using p2
+      · intro hh
+        simp only [step, hal, hf, hs, hrw] at hh ⊢
+        simp only [Bool.not_true, Bool.false_eq_true, if_false] at hh ⊢
+        rw [anyLocked_putBack]
+        exact p2 hh
   | coreStart => grind [step, St.exit, reconnOk]
   | coreKill => grind [step, St.exit, reconnOk]
   | coreTerm => grind [step, St.exit, reconnOk]
@@ -685,7 +989,7 @@ theorem invP_hello_step (c : Cfg) (W : World) (s : St) (x : Step) (hx : reconnOk
 theorem handle_log (c : Cfg) (W : World) (s : St) :
     (step c W s .handle).log = s.log ∨
     ∃ t st r, (t, st, r) ∈ s.inbox ∧ (!c.rosterGuard || !inRoster s.roster t) = true ∧ (!c.reasonGuard || r == .recon) = true ∧
-      (step c W s .handle).log = .kill s.life t (.update r) (lockedIn s.roster t) :: s.log := by
+      (step c W s .handle).log = .kill s.life t (.update r) (lockedIn s.roster t || heldBy s.held t) :: s.log := by
   by_cases hal : s.alive = true
   case neg => left; simp [step, hal]
   cases hi : s.inbox with
@@ -702,7 +1006,7 @@ theorem handle_log (c : Cfg) (W : World) (s : St) :
       · left; simp [hs]
     · rw [if_neg hk]; left; rfl
 
-theorem invP_spec_step (c : Cfg) (W : World) (s : St) (x : Step) (h : InvP s) :
+theorem invP_spec_step (c : Cfg) (W : World) (s : St) (x : Step) (hR : InvR s) (h : InvP s) :
     ownedSpared (step c W s x).log = true := by
   obtain ⟨p1, p2, p3⟩ := h
   cases x with
@@ -714,7 +1018,7 @@ theorem invP_spec_step (c : Cfg) (W : World) (s : St) (x : Step) (h : InvP s) :
       | none => simpa [ownedSpared] using p3
       | recon =>
         have := (p1 t st (Or.inr hm)).1
-        simpa [ownedSpared, this] using p3
+        simpa [ownedSpared, this, heldBy_eq_lockedIn s hR] using p3
   | coreTerm =>
     by_cases hal : s.alive = true
     · by_cases hs : s.stream.isSome = true
@@ -727,6 +1031,16 @@ theorem invP_spec_step (c : Cfg) (W : World) (s : St) (x : Step) (h : InvP s) :
       · simpa [step, hal, hs] using ownedSpared_killsFor_release _ _ _ p3
       · simpa [step, hal, hs] using p3
     · simpa [step, hal] using p3
+  | releaseBegin e => grind [step, St.exit, ownedSpared]
+  | releaseEnd e =>
+    by_cases hal : s.alive = true
+    · cases hf : s.tearing.find? (fun d => d.env == e) with
+      | none => simpa [step, hal, hf] using p3
+      | some d =>
+        by_cases hs : s.stream.isSome = true
+        · simpa [step, hal, hf, hs] using ownedSpared_killsFor_release _ _ _ p3
+        · simpa [step, hal, hf, hs] using p3
+    · simpa [step, hal] using p3
   | coreStart => grind [step, St.exit, ownedSpared]
   | coreKill => grind [step, St.exit, ownedSpared]
   | subscribe => grind [step, St.exit, ownedSpared]
@@ -737,19 +1051,20 @@ theorem invP_spec_step (c : Cfg) (W : World) (s : St) (x : Step) (h : InvP s) :
   | reconUpdate t st => grind [step, St.exit, ownedSpared]
   | snapshot => grind [step, St.exit, ownedSpared]
 
-theorem invP_step (c : Cfg) (W : World) (s : St) (x : Step) (hx : reconnOk s x = true)
+theorem invP_step (c : Cfg) (W : World) (hrw : c.snapshotRewrite = false) (s : St) (x : Step) (hx : reconnOk s x = true)
     (ha : ∀ g, s.hello = some g → s.stream = some g) (hb : ∀ t ∈ s.tasks, t.id ∈ s.seen)
-    (h : InvP s) : InvP (step c W s x) :=
-  ⟨invP_flight_step c W s x hx hb h, invP_hello_step c W s x hx ha h, invP_spec_step c W s x h⟩
+    (hR : InvR s) (h : InvP s) : InvP (step c W s x) :=
+  ⟨invP_flight_step c W hrw s x hx hb h, invP_hello_step c W hrw s x hx ha h, invP_spec_step c W s x hR h⟩
 
 theorem inv_run_P (c : Cfg) (W : World) (hseed : c.seedFid = true) (hfo : c.failover = true)
+    (hrw : c.snapshotRewrite = false)
     (h : List Step) (s : St) (hh : noReconnWhileOwning c W h s = true)
-    (hA : InvA s) (hb : ∀ t ∈ s.tasks, t.id ∈ s.seen) (hP : InvP s) : InvP (run c W h s) := by
+    (hA : InvA s) (hb : ∀ t ∈ s.tasks, t.id ∈ s.seen) (hR : InvR s) (hP : InvP s) : InvP (run c W h s) := by
   induction h generalizing s with
   | nil => exact hP
   | cons x xs ih =>
     simp only [noReconnWhileOwning, Bool.and_eq_true] at hh
-    refine ih _ hh.2 (invA_step c W hseed hfo s x hA) ?_ (invP_step c W s x hh.1 hA.hello hb hP)
+    refine ih _ hh.2 (invA_step c W hseed hfo s x hA) ?_ (invR_step c W hrw s x hR) (invP_step c W hrw s x hh.1 hA.hello hb hR hP)
     -- `seen` covers the table: the one field of InvB needed here, re-proved without InvB's hypotheses
     cases x <;> grind [step, St.exit]
 
@@ -760,6 +1075,8 @@ theorem other_log (c : Cfg) (W : World) (s : St) (x : Step) (hx : x ≠ .handle)
   | handle => exact absurd rfl hx
   | coreTerm => intro o; simp only [step, St.exit]; split <;> (try split) <;> simp [killsFor] <;> grind
   | release e => intro o; simp only [step]; split <;> (try split) <;> simp [killsFor] <;> grind
+  | releaseBegin e => grind [step, St.exit]
+  | releaseEnd e => intro o; simp only [step]; split <;> (try split) <;> (try split) <;> simp [killsFor] <;> grind
   | coreStart => grind [step, St.exit]
   | coreKill => grind [step, St.exit]
   | subscribe => grind [step, St.exit]
@@ -779,7 +1096,7 @@ theorem lockedIn_le_inRoster (r : List RTask) (t : Nat) (h : inRoster r t = fals
     exact ih h.2
 
 theorem ownedSpared_step_guarded (c : Cfg) (W : World) (hg : c.rosterGuard = true) (s : St) (x : Step)
-    (h : ownedSpared s.log = true) : ownedSpared (step c W s x).log = true := by
+    (hR : InvR s) (h : ownedSpared s.log = true) : ownedSpared (step c W s x).log = true := by
   by_cases hx : x = .handle
   · subst hx
     rcases handle_log c W s with e | ⟨t, st, r, _, hr, _, e⟩
@@ -787,7 +1104,7 @@ theorem ownedSpared_step_guarded (c : Cfg) (W : World) (hg : c.rosterGuard = tru
     · rw [e]
       simp only [hg, Bool.not_true, Bool.false_or, Bool.not_eq_true'] at hr
       have := lockedIn_le_inRoster _ _ hr
-      cases r <;> simpa [ownedSpared, this] using h
+      cases r <;> simpa [ownedSpared, this, heldBy_eq_lockedIn s hR] using h
   · apply List.all_eq_true.mpr
     intro o ho
     rcases other_log c W s x hx o ho with h1 | h1
